@@ -75,7 +75,12 @@ def axes_subset(draw, nd):
     if draw(st.integers(0, 2)) == 0:
         return None
     k = draw(st.integers(1, nd))
-    return sorted(draw(st.lists(st.integers(0, nd - 1), min_size=k, max_size=k, unique=True)))
+    ax = sorted(draw(st.lists(st.integers(0, nd - 1), min_size=k, max_size=k, unique=True)))
+    if k > 1 and draw(st.booleans()):
+        # the caller may list the axes in any order; factors / output lengths pair with them position by position
+        # (seeded change C06-13: metadata updated for sorted(axes) with the factors in the caller's order)
+        ax = list(draw(st.permutations(ax)))
+    return ax
 
 
 @st.composite
@@ -126,6 +131,26 @@ def resample_cases(draw):
         c["facs"] = facs
     c.update(kind="resample", axes=axes, out=out, via=via, seed2=draw(st.integers(0, 10**6)),
              a=draw(st.sampled_from([1.0, -2.0, 0.5, 3.25])), b=draw(st.sampled_from([1.0, 4.0, -0.75])))
+    if draw(st.integers(0, 3)) == 0:
+        # history: the dataset that is resampled is itself the product of earlier operations on the SAME object
+        # (a resample, then a shape-changing step that ends at c["shape"]); the laws are judged against the
+        # calibration the object reports right before the examined call (seeded change C06-12: a per-instance memo of
+        # the field-of-view centre that in-place pad / bin do not invalidate)
+        cap = {1: 12, 2: 9, 3: 6, 4: 4}[nd]
+        c["dtype"] = "float64"
+        rel = draw(st.sampled_from(["any", "smaller", "smaller", "larger"]))  # smaller: a pad can end at c["shape"]
+        shape0 = [draw(st.integers(1, cap)) if rel == "any" else (max(1, n - draw(st.integers(0, 3))) if rel == "smaller" else n + draw(st.integers(0, 3))) for n in c["shape"]]
+        r1 = [draw(st.integers(1, cap + 3)) for _ in range(nd)]
+        # a copying first step leaves two objects with a past: its result, and its SOURCE (which must behave as if
+        # nothing had happened to it)
+        r1_mode = draw(st.sampled_from(["in_place", "copy_continue_result", "copy_continue_source", "copy_continue_source"]))
+        cur = shape0 if r1_mode == "copy_continue_source" else r1
+        last = ["resample"]
+        if all(a_ <= b_ for a_, b_ in zip(cur, c["shape"])):
+            last += ["pad", "pad"]
+        if all(a_ >= b_ for a_, b_ in zip(cur, c["shape"])):
+            last += ["crop", "crop"]
+        c["prelude"] = {"shape0": shape0, "r1": r1, "r1_mode": r1_mode, "last": draw(st.sampled_from(last)), "last_in_place": draw(st.sampled_from([True, True, False]))}
     return c
 
 
@@ -234,12 +259,36 @@ def _apply(ctx, case, ds, name, in_place, **kw):
 
 
 def check(ctx, case):
+    if case.get("_orig"):  # a stored violation of a case with a history: start again from the drawn calibration
+        case = {k: v for k, v in dict(case, **case["_orig"]).items() if k != "_orig"}
     kind = case["kind"]
     arr = make_array(case["shape"], case["dtype"], case["seed"])
     with ctx.sut(case, "from_array"):
         ds = make_ds(case["cls"], arr.copy(), case["origin"], case["sampling"])
     nd = arr.ndim
     classes = ["kind:" + kind, "dtype:" + case["dtype"], "ndim:%d" % nd, "cls:" + case["cls"], "in_place" if case["in_place"] else "copying"]
+    if case.get("prelude"):
+        pre = case["prelude"]
+        with ctx.sut(case, "history before the examined call: from_array%s -> fourier_resample(%s, %s) -> %s to %s" % (pre["shape0"], pre["r1"], pre["r1_mode"], pre["last"], case["shape"])):
+            ds = make_ds(case["cls"], make_array(pre["shape0"], "float64", case["seed"] + 1), case["origin"], case["sampling"])
+            r = ds.fourier_resample(out_shape=tuple(pre["r1"]), modify_in_place=pre["r1_mode"] == "in_place")
+            ds = r if pre["r1_mode"] == "copy_continue_result" else ds
+            tgt = tuple(case["shape"])
+            if pre["last"] == "resample":
+                r = ds.fourier_resample(out_shape=tgt, modify_in_place=pre["last_in_place"])
+            elif pre["last"] == "pad":
+                r = ds.pad(output_shape=tgt, modify_in_place=pre["last_in_place"])
+            else:
+                r = ds.crop(crop_widths=tuple((0, n) for n in tgt), modify_in_place=pre["last_in_place"])
+            ds = ds if pre["last_in_place"] else r
+        arr = np.array(ds.array)
+        if arr.shape != tuple(case["shape"]) or str(arr.dtype) != "float64":
+            ctx.count("prelude_ended_elsewhere")  # not this property's business (C03 judges histories): examine the plain case
+            arr = make_array(case["shape"], case["dtype"], case["seed"])
+            ds = make_ds(case["cls"], arr.copy(), case["origin"], case["sampling"])
+        else:
+            case = dict(case, origin=[float(v) for v in ds.origin], sampling=[float(v) for v in ds.sampling], _orig={"origin": case["origin"], "sampling": case["sampling"]})
+            classes.append("after_history:" + pre["r1_mode"] + "+" + pre["last"] + ("_in_place" if pre["last_in_place"] else "_copy"))
     if kind == "bin":
         return _check_bin(ctx, case, ds, arr, classes)
     if kind == "resample":
